@@ -569,10 +569,21 @@ theorem orElse_cases (r r' : Res) (h : (orElse r r').errs = []) :
 
 /-! ## the other combinators -/
 
-theorem congr2_errs {ra rb : Res} (h : (congr2 ra rb).errs = []) :
-    ra.errs = [] ∧ ra.sites = [] ∧ rb.errs = [] ∧ rb.sites = [] := by
-  simp only [congr2, List.append_eq_nil_iff] at h
-  exact ⟨(eqOnly_errs h.1).1, (eqOnly_errs h.1).2, (eqOnly_errs h.2).1, (eqOnly_errs h.2).2⟩
+theorem seqRtl_sound {e : Env} {a a' b b' : Pat} {ra rb : Res}
+    (ha : ra.errs = [] → Holds e true ra a a') (hb : rb.errs = [] → Holds e true rb b b')
+    (herr : (seqRtl ra rb).errs = []) : Holds e true (seqRtl ra rb) (.seq a b) (.seq a' b') := by
+  unfold seqRtl at herr ⊢
+  by_cases h1 : ra.sites.isEmpty = true
+  · rw [if_pos h1] at herr ⊢
+    simp only [List.append_eq_nil_iff] at herr
+    obtain ⟨he, hs⟩ := eqOnly_errs herr.2
+    exact holds_of_eq (seq_congr_dir ((ha herr.1).eq (by simpa using h1)) ((hb he).eq hs)) _
+  · rw [if_neg h1] at herr ⊢
+    simp only [List.append_eq_nil_iff] at herr
+    obtain ⟨he, hs⟩ := eqOnly_errs herr.2
+    refine ⟨eqMod_top (fun i => by simp [dead, siteDead]), fun hh => ?_⟩
+    exact (headEq_seq_rtl b ((ha herr.1).headEq hh)).trans
+      (HeadEq.of_eq (seq_congr_dir (fun _ => rfl) ((hb he).eq hs)))
 
 theorem union_errs {ra rb : Res} (h : (union ra rb).errs = []) : ra.errs = [] ∧ rb.errs = [] := by
   simpa only [union, List.append_eq_nil_iff] using h
@@ -612,9 +623,9 @@ theorem topOf_errs {c : Res} {n : Nat} (h : (c.topOf n).errs = []) : c.errs = []
     exact absurd (by simp [h]) hc
 
 /-- a construct wrapped in Atomic where only its first success matters -/
-theorem wrap_sound {e : Env} {r : Res} {p p' : Pat} (h : Holds e false r p p') (herr : r.wrap.errs = []) :
-    Holds e false r.wrap p (.atomic p') :=
-  holds_top ((h.headEq (wrap_errs herr).2).trans (headEq_atomic e false p')) (wrap_sites herr)
+theorem wrap_sound {e : Env} {d : Bool} {r : Res} {p p' : Pat} (h : Holds e d r p p') (herr : r.wrap.errs = []) :
+    Holds e d r.wrap p (.atomic p') :=
+  holds_top ((h.headEq (wrap_errs herr).2).trans (headEq_atomic e d p')) (wrap_sites herr)
 
 /-! ## loops -/
 
@@ -746,27 +757,35 @@ theorem quantRes_sound {e : Env} {o : Oracle} (hs : o.Sound e) {d : Bool} {lzy :
         obtain ⟨he, hk⟩ := close_errs hce
         exact holds_top (headEq_quant_hi_one lzy lo ((hx he).headEq hk)) hts
       · simp only [h3, if_false] at herr ⊢
-        by_cases h4 : d = false ∧ bodyKills o x x' r.sites = true
-        · obtain ⟨rfl, h4⟩ := h4
-          simp only [h4, and_self, if_true] at herr ⊢
-          obtain ⟨k1, k2⟩ := bodyKills_sound hs h4
-          have hb := hx herr
-          exact ⟨hb.1.quant lzy lo hi k1 k2, fun hh => headEq_quant_eqMod lzy lo hi (hb.headEq hh) hb.1 k1 k2⟩
-        · simp only [h4, if_false] at herr ⊢
-          obtain ⟨he, hs'⟩ := eqOnly_errs herr
-          exact absurd (by simp [hs']) h2
+        cases d with
+        | true =>
+          simp only [if_true, List.append_eq_nil_iff] at herr
+          exact absurd herr.2 (by simp)
+        | false =>
+          simp only [Bool.false_eq_true, if_false] at herr ⊢
+          by_cases h4 : bodyKills o x x' r.sites = true
+          · simp only [h4, if_true] at herr ⊢
+            obtain ⟨k1, k2⟩ := bodyKills_sound hs h4
+            have hb := hx herr
+            exact ⟨hb.1.quant lzy lo hi k1 k2, fun hh => headEq_quant_eqMod lzy lo hi (hb.headEq hh) hb.1 k1 k2⟩
+          · simp only [h4, if_false] at herr ⊢
+            obtain ⟨he, hs'⟩ := eqOnly_errs herr
+            exact absurd (by simp [hs']) h2
   · simp only [h1, if_false] at herr ⊢
     by_cases h2 : lzy = true ∧ lzy' = true ∧ lo = lo' ∧ hi' = some lo ∧ hiAtLeast hi lo = true
     · obtain ⟨rfl, rfl, rfl, rfl, h5⟩ := h2
       simp only [and_self, h5, if_true] at herr ⊢
       have hmin := headEq_lazy_min e d lo hi x (canGo_of_hiAtLeast h5)
-      by_cases h3 : lo = 1
-      · subst h3
-        simp only [if_true] at herr ⊢
+      by_cases h3 : lo = 1 ∨ (d = false ∧ bodyKills o x x' r.sites = true)
+      · rw [if_pos h3] at herr ⊢
         obtain ⟨hce, hts⟩ := topOf_errs herr
         obtain ⟨he, hk⟩ := close_errs hce
-        exact holds_top (hmin.trans (headEq_quant_hi_one true 1 ((hx he).headEq hk))) hts
-      · simp only [h3, if_false] at herr ⊢
+        rcases h3 with h3 | ⟨rfl, h4⟩
+        · subst h3
+          exact holds_top (hmin.trans (headEq_quant_hi_one true 1 ((hx he).headEq hk))) hts
+        · obtain ⟨k1, k2⟩ := bodyKills_sound hs h4
+          exact holds_top (hmin.trans (headEq_quant_eqMod true lo (some lo) ((hx he).headEq hk) (hx he).1 k1 k2)) hts
+      · rw [if_neg h3] at herr ⊢
         obtain ⟨hce, hts⟩ := topOf_errs herr
         obtain ⟨he, hs'⟩ := eqOnly_errs hce
         exact holds_top (hmin.trans (HeadEq.of_eq (quant_congr_dir true lo (some lo) ((hx he).eq hs')))) hts
@@ -793,7 +812,51 @@ theorem seqMarker_sound {e : Env} {o : Oracle} (hs : o.Sound e) {a a' b : Pat} {
       simp only [m, Bool.false_eq_true, if_false, List.flatMap_singleton]
   · exact hr herr
 
-/-- the loop sites: the claims about the loop and its replacement -/
+/-- the successes of a repeater `q{n}`: the position `n` further when the run is long enough -/
+theorem repeater_successes (e : Env) (q : Pred) (n : Nat) (st : St) :
+    m e (.quant false n (some n) (.chr q)) false st
+      = if n ≤ runLen e q st.pos then [{ st with pos := st.pos + n }] else [] := by
+  rw [charloop_successes]
+  simp only [capN]
+  by_cases h : n ≤ runLen e q st.pos
+  · rw [if_pos h]
+    have : min (runLen e q st.pos) (n - 0) + 1 - n = 1 := by omega
+    rw [this]; simp
+  · rw [if_neg h]
+    have : min (runLen e q st.pos) (n - 0) + 1 - n = 0 := by omega
+    rw [this]; rfl
+
+/-- a Multi string of one rune is the repeater -/
+theorem repPat_eq_repeater (e : Env) (q : Pred) : ∀ (n : Nat) (st : St),
+    m e (repPat q n) false st = m e (.quant false n (some n) (.chr q)) false st
+  | 0, st => by rw [repeater_successes]; simp [repPat, m]
+  | 1, st => by
+    rw [repeater_successes, repPat, m_chr_ltr]
+    by_cases ha : acc e q st.pos = true
+    · have := runLen_of_acc ha
+      rw [if_pos ha, if_pos (by omega)]
+    · have := runLen_of_not_acc (Bool.eq_false_iff.mpr ha)
+      rw [if_neg ha, if_neg (by omega)]
+  | n + 2, st => by
+    rw [repeater_successes, repPat]
+    simp only [m, Bool.false_eq_true, if_false]
+    have hchr := m_chr_ltr e q st
+    simp only [m] at hchr
+    rw [hchr]
+    by_cases ha : acc e q st.pos = true
+    · have hr := runLen_of_acc ha
+      rw [if_pos ha]
+      simp only [List.flatMap_cons, List.flatMap_nil, List.append_nil]
+      rw [repPat_eq_repeater e q (n + 1), repeater_successes]
+      simp only
+      by_cases hn : n + 1 ≤ runLen e q (st.pos + 1)
+      · rw [if_pos hn, if_pos (by omega)]
+        congr 2; omega
+      · rw [if_neg hn, if_neg (by omega)]
+    · have := runLen_of_not_acc (Bool.eq_false_iff.mpr ha)
+      rw [if_neg ha, if_neg (by omega)]
+      rfl
+
 theorem atomic_single_fixed {e : Env} {q : Pred} {n : Nat} {st : St} :
     m e (.atomic (.quant false n (some n) (.chr q))) false st = m e (.quant false n (some n) (.chr q)) false st := by
   rw [m_atomic]
@@ -845,21 +908,43 @@ theorem charSite_sound {e : Env} {lzy : Bool} {lo : Nat} {hi : Option Nat} {q : 
         subst h
         refine ⟨rfl, holds_top ?_ rfl⟩
         have hmin := headEq_lazy_min e false lo hi (.chr q) (canGo_of_hiAtLeast h5)
-        rcases hp with hp' | ⟨hlo, hp'⟩
+        rcases hp with hp' | hp'
         · subst hp'
           exact (hmin.trans (HeadEq.of_eq (repeater_lazy_eq_greedy e q lo))).trans (headEq_atomic e false _)
-        · subst hlo; subst hp'
-          refine hmin.trans (HeadEq.of_eq (fun st => ?_))
-          rw [m_quant]
-          simp [iter, canGo, m]
+        · subst hp'
+          exact hmin.trans (HeadEq.of_eq (fun st =>
+            (repeater_lazy_eq_greedy e q lo st).trans (repPat_eq_repeater e q lo st).symm))
       · cases h
+
+theorem charSiteRtl_sound {e : Env} {lzy : Bool} {lo : Nat} {hi : Option Nat} {q : Pred} {p' : Pat} {r : Res}
+    (h : charSiteRtl lzy lo hi q p' = some r) : r.errs = [] ∧ Holds e true r (.quant lzy lo hi (.chr q)) p' := by
+  unfold charSiteRtl at h
+  split at h
+  · rename_i hc
+    obtain ⟨rfl, rfl⟩ := hc
+    simp only [Option.some.injEq] at h
+    subst h
+    exact ⟨rfl, holds_top (headEq_atomic e true _) rfl⟩
+  · split at h
+    · rename_i hc
+      obtain ⟨rfl, rfl, rfl⟩ := hc
+      simp only [Option.some.injEq] at h
+      subst h
+      refine ⟨rfl, holds_top ?_ rfl⟩
+      have hmin := headEq_lazy_min e true 0 hi (.chr q) (fun c hc => by omega)
+      refine hmin.trans (HeadEq.of_eq (fun st => ?_))
+      rw [m_quant]
+      simp [iter, canGo, m]
+    · cases h
 
 theorem siteOf_sound {e : Env} {rtl lzy : Bool} {lo : Nat} {hi : Option Nat} {p' x : Pat} {r : Res}
     (h : siteOf rtl lzy lo hi p' x = some r) : r.errs = [] ∧ Holds e rtl r (.quant lzy lo hi x) p' := by
   unfold siteOf at h
   split at h
   · cases rtl with
-    | true => simp at h
+    | true =>
+      simp only [if_true] at h
+      exact charSiteRtl_sound h
     | false =>
       simp only [Bool.false_eq_true, if_false] at h
       exact charSite_sound h
@@ -872,11 +957,7 @@ theorem quantGeneric_sound {e : Env} {o : Oracle} (hs : o.Sound e) {rtl lzy : Bo
   unfold quantGeneric at herr ⊢
   split at herr
   · exact quantRes_sound hs (hx _) herr
-  · cases rtl with
-    | true => simp [Res.fail] at herr
-    | false =>
-      simp only [Bool.false_eq_true, if_false] at herr ⊢
-      exact wrap_sound (quantRes_sound hs (hx _) (wrap_errs herr).1) herr
+  · exact wrap_sound (quantRes_sound hs (hx _) (wrap_errs herr).1) herr
   · simp [Res.fail] at herr
 
 /-- dropping the Atomic node around something with at most one success, the body in tail position -/
@@ -939,8 +1020,7 @@ theorem cert_sound {e : Env} {o : Oracle} (hs : o.Sound e) :
       cases d with
       | true =>
         simp only [if_true] at h ⊢
-        obtain ⟨h1, h2, h3, h4⟩ := congr2_errs h
-        exact holds_of_eq (seq_congr_dir ((iha true a' h1).eq h2) ((ihb true b' h3).eq h4)) _
+        exact seqRtl_sound (iha true a') (ihb true b') h
       | false =>
         simp only [Bool.false_eq_true, if_false] at h ⊢
         have key : ∀ y, (seqRes o b y (cert o false a a') (cert o false b y)).errs = [] →
@@ -968,14 +1048,10 @@ theorem cert_sound {e : Env} {o : Oracle} (hs : o.Sound e) :
       cases y with
       | alt a' b' =>
         simp only [cert] at h ⊢
-        cases d with
-        | true => exact absurd (by simpa using h) (fail_errs _)
-        | false =>
-          simp only [Bool.false_eq_true, if_false] at h ⊢
-          obtain ⟨h1, h2⟩ := union_errs (wrap_errs h).1
-          refine wrap_sound ?_ h
-          exact ⟨((iha false a' h1).1.mono (union_dead_left e _ _)).alt ((ihb false b' h2).1.mono (union_dead_right e _ _)),
-            fun hh => headEq_alt ((iha false a' h1).headEq (union_head hh).1) ((ihb false b' h2).headEq (union_head hh).2)⟩
+        obtain ⟨h1, h2⟩ := union_errs (wrap_errs h).1
+        refine wrap_sound ?_ h
+        exact ⟨((iha d a' h1).1.mono (union_dead_left e _ _)).alt ((ihb d b' h2).1.mono (union_dead_right e _ _)),
+          fun hh => headEq_alt ((iha d a' h1).headEq (union_head hh).1) ((ihb d b' h2).headEq (union_head hh).2)⟩
       | _ => exact absurd (by simpa only [cert] using h) (fail_errs _)
     | _ => exact absurd (by simpa only [cert] using h) (fail_errs _)
   | cap g a ih =>
@@ -1029,13 +1105,13 @@ theorem cert_sound {e : Env} {o : Oracle} (hs : o.Sound e) :
       cases z with
       | refCond g' y' n' =>
         simp only [cert] at h ⊢
-        by_cases hc : g = g' ∧ d = false
-        · obtain ⟨rfl, rfl⟩ := hc
-          simp only [and_self, if_true] at h ⊢
+        by_cases hc : g = g'
+        · subst hc
+          rw [if_pos rfl] at h ⊢
           obtain ⟨h1, h2⟩ := union_errs (wrap_errs h).1
           refine wrap_sound ?_ h
-          exact ⟨((ihy false y' h1).1.mono (union_dead_left e _ _)).refCond g ((ihn false n' h2).1.mono (union_dead_right e _ _)),
-            fun hh => headEq_refCond g ((ihy false y' h1).headEq (union_head hh).1) ((ihn false n' h2).headEq (union_head hh).2)⟩
+          exact ⟨((ihy d y' h1).1.mono (union_dead_left e _ _)).refCond g ((ihn d n' h2).1.mono (union_dead_right e _ _)),
+            fun hh => headEq_refCond g ((ihy d y' h1).headEq (union_head hh).1) ((ihn d n' h2).headEq (union_head hh).2)⟩
         · rw [if_neg hc] at h; exact absurd h (fail_errs _)
       | _ => exact absurd (by simpa only [cert] using h) (fail_errs _)
     | _ => exact absurd (by simpa only [cert] using h) (fail_errs _)
@@ -1061,16 +1137,12 @@ theorem cert_sound {e : Env} {o : Oracle} (hs : o.Sound e) :
       cases z with
       | exprCond c' y' n' =>
         simp only [cert] at h ⊢
-        cases d with
-        | true => exact absurd (by simpa using h) (fail_errs _)
-        | false =>
-          simp only [Bool.false_eq_true, if_false] at h ⊢
-          have hw := (wrap_errs h).1
-          have hc := core c' y' n' hw
-          exact wrap_sound (r := { union (cert o false y y') (cert o false n n') with
-              errs := (cert o false c c').close.errs ++ (union (cert o false y y') (cert o false n n')).errs,
-              made := (cert o false c c').close.made + (union (cert o false y y') (cert o false n n')).made })
-            ⟨hc.1, hc.2⟩ h
+        have hw := (wrap_errs h).1
+        have hc := core c' y' n' hw
+        exact wrap_sound (r := { union (cert o d y y') (cert o d n n') with
+            errs := (cert o d c c').close.errs ++ (union (cert o d y y') (cert o d n n')).errs,
+            made := (cert o d c c').close.made + (union (cert o d y y') (cert o d n n')).made })
+          ⟨hc.1, hc.2⟩ h
       | _ => exact absurd (by simpa only [cert] using h) (fail_errs _)
     | _ => exact absurd (by simpa only [cert] using h) (fail_errs _)
   | quant lzy lo hi x ih =>
